@@ -75,6 +75,7 @@ func NewPortManager() *PortManager {
 func (s *PortManager) PickEphemeralPort(testPort func(p uint16) (bool, *tcpip.Error)) (port uint16, err *tcpip.Error) {
 	count := uint16(math.MaxUint16 - FirstEphemeral + 1)
 	offset := uint16(rand.Int31n(int32(count)))
+	offset = verifEphemeralOffset(offset, count)
 
 	for i := uint16(0); i < count; i++ {
 		port = FirstEphemeral + (offset+i)%count
@@ -94,8 +95,10 @@ func (s *PortManager) PickEphemeralPort(testPort func(p uint16) (bool, *tcpip.Er
 // IsPortAvailable tests if the given port is available on all given protocols.
 func (s *PortManager) IsPortAvailable(networks []tcpip.NetworkProtocolNumber, transport tcpip.TransportProtocolNumber,
 	addr tcpip.Address, port uint16) bool {
+	verifLock(&s.mu, "ports.IsPortAvailable.lock")
 	s.mu.Lock()
 	defer s.mu.Unlock()
+	verifYield("ports.IsPortAvailable.locked")
 	return s.isPortAvailableLocked(networks, transport, addr, port)
 }
 
@@ -118,8 +121,10 @@ func (s *PortManager) isPortAvailableLocked(networks []tcpip.NetworkProtocolNumb
 // 如果传人的端口等于0，那么就是告诉协议栈自己分配端口，端口管理器就会随机返回一个端口。
 func (s *PortManager) ReservePort(networks []tcpip.NetworkProtocolNumber, transport tcpip.TransportProtocolNumber,
 	addr tcpip.Address, port uint16) (reservedPort uint16, err *tcpip.Error) {
+	verifLock(&s.mu, "ports.ReservePort.lock")
 	s.mu.Lock()
 	defer s.mu.Unlock()
+	verifYield("ports.ReservePort.locked")
 
 	// If a port is specified, just try to reserve it for all network
 	// protocols.
@@ -146,6 +151,7 @@ func (s *PortManager) reserveSpecificPort(networks []tcpip.NetworkProtocolNumber
 	if !s.isPortAvailableLocked(networks, transport, addr, port) {
 		return false
 	}
+	verifYield("ports.reserve.checked")
 
 	// Reserve port on all network protocols.
 	// 根据给定的网络层协议号（IPV4或IPV6），绑定端口
@@ -158,6 +164,7 @@ func (s *PortManager) reserveSpecificPort(networks []tcpip.NetworkProtocolNumber
 		}
 		// 注册该地址被绑定了
 		m[addr] = struct{}{}
+		verifYield("ports.reserve.inserted")
 	}
 
 	return true
@@ -168,8 +175,10 @@ func (s *PortManager) reserveSpecificPort(networks []tcpip.NetworkProtocolNumber
 // 释放绑定的端口，以便别的程序复用。
 func (s *PortManager) ReleasePort(networks []tcpip.NetworkProtocolNumber, transport tcpip.TransportProtocolNumber,
 	addr tcpip.Address, port uint16) {
+	verifLock(&s.mu, "ports.ReleasePort.lock")
 	s.mu.Lock()
 	defer s.mu.Unlock()
+	verifYield("ports.ReleasePort.locked")
 
 	// 删除绑定关系
 	for _, network := range networks {
@@ -177,6 +186,7 @@ func (s *PortManager) ReleasePort(networks []tcpip.NetworkProtocolNumber, transp
 		if m, ok := s.allocatedPorts[desc]; ok {
 			log.Printf("@端口 port: 释放端口 delete transport: %d, port: %d", transport, port)
 			delete(m, addr)
+			verifYield("ports.release.deleted")
 			if len(m) == 0 {
 				delete(s.allocatedPorts, desc)
 			}
